@@ -111,7 +111,7 @@ package storage
 //@     (common.MintShape(&ver.SignedTransaction.Transaction) ==> val(ver.Inputs[0].Mint.Amount) > 0 && TotalOf(t, ver.Asset) + val(ver.Inputs[0].Mint.Amount) <= common.CapacityOf(ver.Asset)) &&
 //@     (common.GenesisShape(&ver.SignedTransaction.Transaction) ==> (forall i int :: 0 <= i && i < len(ver.Outputs) ==> val(ver.Outputs[i].Amount) > 0) &&
 //@          (forall i int :: 0 <= i && i <= len(ver.Outputs) ==> TotalOf(t, ver.Asset) + common.SumOut(ver.Outputs, i) <= common.CapacityOf(ver.Asset))) &&
-//@     (common.PlainInputs(&ver.SignedTransaction.Transaction) ==> (forall i int :: 0 <= i && i < len(ver.Outputs) && ver.Outputs[i].Type == common.OutputTypeWithdrawalSubmit ==> val(ver.Outputs[i].Amount) > 0) &&
+//@     (common.PlainInputs(&ver.SignedTransaction.Transaction) && !common.NoSubmitOutput(&ver.SignedTransaction.Transaction) ==> (forall i int :: 0 <= i && i < len(ver.Outputs) && ver.Outputs[i].Type == common.OutputTypeWithdrawalSubmit ==> val(ver.Outputs[i].Amount) > 0) &&
 //@          (forall i int :: 0 <= i && i <= len(ver.Outputs) ==> common.SumSubmit(ver.Outputs, i) <= TotalOf(t, ver.Asset)) && TotalOf(t, ver.Asset) <= common.CapacityOf(ver.Asset))
 //@ spec TotalPre(t badger.Txn, ver *common.VersionedTransaction) bool = HasAssetInfo(t, ver.Asset) && TotalAdmits(t, ver)
 //@ func writeTotalInAsset
@@ -162,7 +162,7 @@ package storage
 //@ -- StoredTxOK: the shape of a transaction read back from TRANSACTION/<h>: it came out of the decoder (non-nil elements, counts within
 //@ -- the decoder limits) and had passed Validate when it was stored (OnlySpecial; a withdrawal claim carries its reference), plus the
 //@ -- typing facts the engine needs (objects reachable from ver exist in the current state; a *crypto.Key never points at the hash cache).
-//@ spec StoredTxOK(ver *common.VersionedTransaction) bool = TxShapeOK(ver) && len(ver.Outputs) <= common.SliceCountLimit && allocated(ver.Outputs) && allocated(ver.Inputs) &&
+//@ spec StoredTxOK(ver *common.VersionedTransaction) bool = TxShapeOK(ver) && len(ver.Outputs) <= common.SliceCountLimit && allocated(ver.Outputs) && allocated(ver.Inputs) && allocated(ver.References) &&
 //@     (forall j int :: {ver.Inputs[j]} 0 <= j && j < len(ver.Inputs) ==> allocated(ver.Inputs[j])) &&
 //@     (forall a int :: {ver.Outputs[a]} 0 <= a && a < len(ver.Outputs) ==> allocated(ver.Outputs[a]) && allocated(ver.Outputs[a].Keys) &&
 //@         (ver.Outputs[a].Type == common.OutputTypeWithdrawalClaim ==> len(ver.References) >= 1) &&
@@ -171,7 +171,8 @@ package storage
 //@ -- transaction is a deposit, which registers it), and the asset total admits the transaction.
 //@ spec FinalizePre(t badger.Txn, ver *common.VersionedTransaction) bool =
 //@     (forall i int :: 0 <= i && i < len(ver.Outputs) ==> common.KnownOutType(ver.Outputs[i].Type)) &&
-//@     (ver.Inputs[0].Deposit == nil ==> HasAssetInfo(t, ver.Asset)) && TotalAdmits(t, ver)
+//@     (ver.Inputs[0].Deposit == nil ==> HasAssetInfo(t, ver.Asset)) && TotalAdmits(t, ver) &&
+//@     (forall a int :: {ver.Outputs[a]} 0 <= a && a < len(ver.Outputs) && ver.Outputs[a].Type == common.OutputTypeWithdrawalClaim ==> ClaimPre(t, ver.References[0]))
 //@ func finalizeTransaction
 //@   property C15, C16, C17
 //@   trustpre PayloadHash -- payload well-formedness and the Debug self-check belong to C06
@@ -202,12 +203,12 @@ package storage
 //@   loop 0 invariant [by-output] forall i int :: 0 <= i && i < len(ver.Outputs) && common.Materialised(ver.Outputs[i].Type) ==> exists j int :: 0 <= j && j < len(rangeexpr) && rangeexpr[j].Index == i
 //@   loop 0 invariant [shape] TxShapeOK(ver)
 //@   loop 0 invariant [utxos] forall j int :: {rangeexpr[j]} 0 <= j && j < len(rangeexpr) ==> fresh(rangeexpr[j]) && allocated(rangeexpr[j]) && common.UtxoOf(rangeexpr[j], ver)
-//@   loop 0 invariant [ghost-first] forall k mathint :: {badger.kvget(*txn, k)} keykind(k) == 2 && old(badger.kvget(*txn, k)) != 0 ==> badger.kvget(*txn, k) == old(badger.kvget(*txn, k))
 //@   loop 0 invariant [db] badger.txndb(*txn) == old(badger.txndb(*txn))
+//@   loop 0 invariant [claim] old(FinalizePre(*txn, ver)) ==> forall a int :: {ver.Outputs[a]} 0 <= a && a < len(ver.Outputs) && ver.Outputs[a].Type == common.OutputTypeWithdrawalClaim ==> ClaimPre(*txn, ver.References[0])
 //@   loop 0 invariant [was-new] let h == ver.hash in old(badger.kvget(*txn, FK(h))) == 0
 //@   loop 0 invariant [fin] badger.kvget(*txn, FK(ver.hash)) == old(common.SnapId(snap.Snapshot)) && badger.kvget(*txn, FK(ver.hash)) != 0
 //@   loop 0 invariant [frame] let h == ver.hash in forall k mathint :: {badger.kvget(*txn, k)} badger.kvget(*txn, k) != old(badger.kvget(*txn, k)) ==>
-//@       k == FK(h) || k == AIK(ver.Asset) || keykind(k) == 2 || (keykind(k) == 1 && keyhid(k) == kvval(h)) || keykind(k) == 14 || keykind(k) == 15 || keykind(k) == 16
+//@       k == FK(h) || k == AIK(ver.Asset) || (keykind(k) == 2 && old(badger.kvget(*txn, k)) == 0) || (keykind(k) == 1 && keyhid(k) == kvval(h)) || keykind(k) == 14 || keykind(k) == 15 || keykind(k) == 16
 //@   loop 0 invariant [info] (ver.Inputs[0].Deposit != nil ==> HasAssetInfo(*txn, ver.Asset)) && (ver.Inputs[0].Deposit == nil ==> badger.kvget(*txn, AIK(ver.Asset)) == old(badger.kvget(*txn, AIK(ver.Asset))))
 
 //@ -- ═════════ badger_topology.go / badger_work.go ═════════
